@@ -312,7 +312,7 @@ pub fn act_bracket(sim: &mut Sim, ctx: &mut Ctx, kind: BracketKind) -> Option<Tx
     };
     ixs.push(end.clone());
     // shape faults
-    match ctx.rng.below(22) {
+    match ctx.rng.below(24) {
         0 => {
             ixs.remove(start_pos);
             sim.stats.fault("tx_bracket_missing_start");
@@ -390,6 +390,32 @@ pub fn act_bracket(sim: &mut Sim, ctx: &mut Ctx, kind: BracketKind) -> Option<Tx
                 sim.stats.fault("tx_bracket_inner_via_cpi");
             }
         }
+        14 | 15 => {
+            // a second start for ANOTHER account (made unhealthy first); the single end closes
+            // only one of the two brackets
+            if let Some((_, _, other, _)) = cands.iter().find(|c| c.2 != target && c.1 == gi).cloned() {
+                make_unhealthy_target(sim, ctx, Some(other));
+                let orm = risk_metas(&sim.store, &other, None, None);
+                let other_has_record = model::account_of(&sim.store, &other).map(|a| a.liquidation_record != Pubkey::default()).unwrap_or(false);
+                let second = match kind {
+                    BracketKind::Liquidation => ix::start_liquidation(other, receiver, orm.clone()),
+                    BracketKind::Deleverage => ix::start_deleverage(g.key, other, receiver, orm.clone()),
+                };
+                let which = ctx.rng.below(2);
+                ixs.insert(start_pos + 1, second);
+                if !other_has_record {
+                    ixs.insert(start_pos, ix::init_liq_record(other, ctx.world.payer));
+                }
+                if which == 1 {
+                    let n = ixs.len();
+                    ixs[n - 1] = match kind {
+                        BracketKind::Liquidation => ix::end_liquidation(other, receiver, ctx.world.fee_wallet, orm),
+                        BracketKind::Deleverage => ix::end_deleverage(g.key, other, receiver, orm),
+                    };
+                }
+                sim.stats.fault("tx_bracket_second_start_other_account");
+            }
+        }
         13 => {
             // a third party (not the receiver) signs the end
             let n = ixs.len();
@@ -412,12 +438,19 @@ pub fn act_bracket(sim: &mut Sim, ctx: &mut Ctx, kind: BracketKind) -> Option<Tx
 /// Make some indebted account unhealthy: crash the price of one of its collateral banks (or
 /// spike the price of one of its debt banks) far enough that Ref maintenance health is negative.
 pub fn act_make_unhealthy(sim: &mut Sim, ctx: &mut Ctx) {
+    make_unhealthy_target(sim, ctx, None)
+}
+
+pub fn make_unhealthy_target(sim: &mut Sim, ctx: &mut Ctx, only: Option<Pubkey>) {
     let mut cands: Vec<(Pubkey, Pubkey)> = Vec::new();
     for u in ctx.world.users.iter() {
         for (_, ma) in &u.maccounts {
             let Some(acc) = model::account_of(&sim.store, ma) else { continue };
             let bals = active_balances(&acc);
             if !bals.iter().any(|b| i80(b.liability_shares) >= I80F48::ONE) {
+                continue;
+            }
+            if only.map(|o| o != *ma).unwrap_or(false) {
                 continue;
             }
             for b in bals.iter().filter(|b| i80(b.asset_shares) >= I80F48::ONE) {
